@@ -79,6 +79,7 @@ func unhexDash(h string) []byte {
 type voucherVector struct {
 	decoded                  bool
 	hdr, mfg, cch, ents, own string // ok | fail | panic
+	dcc, mcc                string // VerifyDeviceCertChain / VerifyManufacturerCertChain (X.509 path building: oracle-only steps)
 	ownerKey                 string // hex of marshalled key structure
 }
 
@@ -133,6 +134,8 @@ func voucherImpl(enc []byte, d *lab.Device, cred fdo.DeviceCredential) voucherVe
 		_ = pub
 		return nil
 	})
+	v.dcc = step(func() error { return ov.VerifyDeviceCertChain(nil) })
+	v.mcc = step(func() error { return ov.VerifyManufacturerCertChain(nil) })
 	return v
 }
 
@@ -252,7 +255,8 @@ type c04Base struct {
 }
 
 func c04Check(x *runCtx, base *c04Base, enc []byte, what string) {
-	impl := voucherImpl(enc, base.d, base.cred).String()
+	implV := voucherImpl(enc, base.d, base.cred)
+	impl := implV.String()
 	model := voucherModel(x, enc, base.d, base.cred)
 	input := fmt.Sprintf("%s %s secret=%x credhash=%d:%x voucher=%s", base.label, what, base.d.Secret, base.cred.PublicKeyHash.Algorithm,
 		base.cred.PublicKeyHash.Value, gen.Hex(enc))
@@ -265,6 +269,16 @@ func c04Check(x *runCtx, base *c04Base, enc []byte, what string) {
 	if strings.Contains(impl, "panic") {
 		x.r.Violate(rep.Violation{Kind: "panic", Check: "C04.no-panic", Signature: "C04.panic:" + what, Input: input, Impl: impl, PropertyFails: true})
 		return
+	}
+	// the two X.509 chain steps are outside the model (path building is the standard library's): they must not panic on any
+	// decodable voucher and must pass on an untampered one
+	if implV.decoded && (implV.dcc == "panic" || implV.mcc == "panic") {
+		x.r.Violate(rep.Violation{Kind: "panic", Check: "C04.no-panic", Signature: "C04.panic:cert-chain-step:" + what, Input: input,
+			Impl: fmt.Sprintf("VerifyDeviceCertChain=%s VerifyManufacturerCertChain=%s", implV.dcc, implV.mcc), PropertyFails: true})
+	}
+	if what == "untampered" && implV.decoded && (implV.dcc != "ok" || implV.mcc != "ok") {
+		x.r.Violate(rep.Violation{Kind: "oracle", Check: "C04.untampered-verifies", Signature: "C04.untampered-cert-chain-step-failed", Input: input,
+			Impl: fmt.Sprintf("VerifyDeviceCertChain=%s VerifyManufacturerCertChain=%s", implV.dcc, implV.mcc), PropertyFails: true})
 	}
 	allOK := impl == "hdr=ok mfg=ok cch=ok entries=ok owner=ok"
 	proj, decodable := boundProjection(enc)
